@@ -1,7 +1,7 @@
 (* GENERATED from the Go source by /verif/translator on every check run — do not edit. *)
 From Coq Require Import List ZArith NArith.
 Import ListNotations.
-Open Scope Z_scope.
+Local Open Scope Z_scope.
 
 Inductive lit := LInt (z : Z) | LStr (s : list N) | LBool (b : bool) | LOther.
 
@@ -986,3 +986,111 @@ Definition lits_state_stateTracker_delNick : list lit :=
   [LStr [84; 114; 97; 99; 107; 101; 114; 46; 68; 101; 108; 78; 105; 99; 107; 40; 41; 58; 32; 84; 82; 89; 73; 78; 71; 32; 84; 79; 32; 68; 69; 76; 69; 84; 69; 32; 77; 69; 32; 58; 45; 40]%N;
    LInt (0);
    LStr [84; 114; 97; 99; 107; 101; 114; 46; 100; 101; 108; 78; 105; 99; 107; 40; 41; 58; 32; 100; 101; 108; 101; 116; 105; 110; 103; 32; 110; 105; 99; 107; 32; 37; 115; 32; 101; 109; 112; 116; 105; 101; 100; 32; 99; 104; 97; 110; 110; 101; 108; 32; 37; 115; 44; 32; 116; 104; 105; 115; 32; 115; 104; 111; 117; 108; 100; 110; 39; 116; 32; 104; 97; 112; 112; 101; 110; 33]%N].
+Definition varlits_client_intHandlers : list lit :=
+  [LStr [82; 69; 71; 73; 83; 84; 69; 82]%N;
+   LStr [48; 48; 49]%N;
+   LStr [52; 51; 51]%N;
+   LStr [67; 84; 67; 80]%N;
+   LStr [78; 73; 67; 75]%N;
+   LStr [80; 73; 78; 71]%N;
+   LStr [67; 65; 80]%N;
+   LStr [52; 49; 48]%N;
+   LStr [65; 85; 84; 72; 69; 78; 84; 73; 67; 65; 84; 69]%N;
+   LStr [57; 48; 51]%N;
+   LStr [57; 48; 52]%N;
+   LStr [57; 48; 56]%N].
+Definition varlits_client_defaultCaps : list lit :=
+  [].
+Definition varlits_client_tagsReplacer : list lit :=
+  [LStr [92; 58]%N;
+   LStr [59]%N;
+   LStr [92; 115]%N;
+   LStr [32]%N;
+   LStr [92; 92]%N;
+   LStr [92]%N;
+   LStr [92; 114]%N;
+   LStr [13]%N;
+   LStr [92; 110]%N;
+   LStr [10]%N].
+Definition varlits_client_stHandlers : list lit :=
+  [LStr [74; 79; 73; 78]%N;
+   LStr [75; 73; 67; 75]%N;
+   LStr [77; 79; 68; 69]%N;
+   LStr [78; 73; 67; 75]%N;
+   LStr [80; 65; 82; 84]%N;
+   LStr [81; 85; 73; 84]%N;
+   LStr [84; 79; 80; 73; 67]%N;
+   LStr [51; 49; 49]%N;
+   LStr [51; 50; 52]%N;
+   LStr [51; 51; 50]%N;
+   LStr [51; 53; 50]%N;
+   LStr [51; 53; 51]%N;
+   LStr [54; 55; 49]%N].
+Definition varlits_state_StringToChanMode : list lit :=
+  [].
+Definition varlits_state_ChanModeToString : list lit :=
+  [LStr [80; 114; 105; 118; 97; 116; 101]%N;
+   LStr [112]%N;
+   LStr [83; 101; 99; 114; 101; 116]%N;
+   LStr [115]%N;
+   LStr [80; 114; 111; 116; 101; 99; 116; 101; 100; 84; 111; 112; 105; 99]%N;
+   LStr [116]%N;
+   LStr [78; 111; 69; 120; 116; 101; 114; 110; 97; 108; 77; 115; 103]%N;
+   LStr [110]%N;
+   LStr [77; 111; 100; 101; 114; 97; 116; 101; 100]%N;
+   LStr [109]%N;
+   LStr [73; 110; 118; 105; 116; 101; 79; 110; 108; 121]%N;
+   LStr [105]%N;
+   LStr [79; 112; 101; 114; 79; 110; 108; 121]%N;
+   LStr [79]%N;
+   LStr [83; 83; 76; 79; 110; 108; 121]%N;
+   LStr [122]%N;
+   LStr [82; 101; 103; 105; 115; 116; 101; 114; 101; 100]%N;
+   LStr [114]%N;
+   LStr [65; 108; 108; 83; 83; 76]%N;
+   LStr [90]%N;
+   LStr [75; 101; 121]%N;
+   LStr [107]%N;
+   LStr [76; 105; 109; 105; 116]%N;
+   LStr [108]%N].
+Definition varlits_state_StringToChanPriv : list lit :=
+  [].
+Definition varlits_state_ChanPrivToString : list lit :=
+  [LStr [79; 119; 110; 101; 114]%N;
+   LStr [113]%N;
+   LStr [65; 100; 109; 105; 110]%N;
+   LStr [97]%N;
+   LStr [79; 112]%N;
+   LStr [111]%N;
+   LStr [72; 97; 108; 102; 79; 112]%N;
+   LStr [104]%N;
+   LStr [86; 111; 105; 99; 101]%N;
+   LStr [118]%N].
+Definition varlits_state_ModeCharToChanPriv : list lit :=
+  [].
+Definition varlits_state_ChanPrivToModeChar : list lit :=
+  [LStr [79; 119; 110; 101; 114]%N;
+   LInt (126);
+   LStr [65; 100; 109; 105; 110]%N;
+   LInt (38);
+   LStr [79; 112]%N;
+   LInt (64);
+   LStr [72; 97; 108; 102; 79; 112]%N;
+   LInt (37);
+   LStr [86; 111; 105; 99; 101]%N;
+   LInt (43)].
+Definition varlits_state_StringToNickMode : list lit :=
+  [].
+Definition varlits_state_NickModeToString : list lit :=
+  [LStr [66; 111; 116]%N;
+   LStr [66]%N;
+   LStr [73; 110; 118; 105; 115; 105; 98; 108; 101]%N;
+   LStr [105]%N;
+   LStr [79; 112; 101; 114]%N;
+   LStr [111]%N;
+   LStr [87; 97; 108; 108; 79; 112; 115]%N;
+   LStr [119]%N;
+   LStr [72; 105; 100; 100; 101; 110; 72; 111; 115; 116]%N;
+   LStr [120]%N;
+   LStr [83; 83; 76]%N;
+   LStr [122]%N].
